@@ -20,11 +20,23 @@ import (
 type kindOps struct {
 	name      string // kind name in the Lean model's vocabulary
 	variant   string // concrete Go type (several NGF policy types share one setter)
+	version   string // served CRD version of that Go type
 	mode      string // ownFirst | foreignFirst | whole
 	newObj    func() client.Object
 	setStatus func(obj client.Object, st []Entry)
 	getStatus func(obj client.Object) []Entry
 	setter    func(st []Entry, ctlr string) frameworkStatus.Setter
+}
+
+// spareCap makes the slices handed to the setter constructors carry unused capacity, so that the
+// setters' `append` writes into the shared backing array instead of reallocating.
+var spareCap bool
+
+func withSpare[T any](s []T) []T {
+	if !spareCap || s == nil {
+		return s
+	}
+	return append(make([]T, 0, len(s)+5), s...)
 }
 
 // ---- conditions
@@ -103,7 +115,7 @@ func toParents(st []Entry) []gatewayv1.RouteParentStatus {
 			ParentRef: fieldsRef(e.Ref), ControllerName: gatewayv1.GatewayController(e.Ctlr), Conditions: toConds(e.Conds),
 		}
 	}
-	return out
+	return withSpare(out)
 }
 
 func fromParents(ps []gatewayv1.RouteParentStatus) []Entry {
@@ -124,7 +136,7 @@ func toAncestors(st []Entry) []v1alpha2.PolicyAncestorStatus {
 			AncestorRef: fieldsRef(e.Ref), ControllerName: gatewayv1.GatewayController(e.Ctlr), Conditions: toConds(e.Conds),
 		}
 	}
-	return out
+	return withSpare(out)
 }
 
 func fromAncestors(as []v1alpha2.PolicyAncestorStatus) []Entry {
@@ -143,7 +155,7 @@ func toControllers(st []Entry) []ngfAPI.ControllerStatus {
 	for i, e := range st {
 		out[i] = ngfAPI.ControllerStatus{ControllerName: gatewayv1.GatewayController(e.Ctlr), Conditions: toConds(e.Conds)}
 	}
-	return out
+	return withSpare(out)
 }
 
 func fromControllers(cs []ngfAPI.ControllerStatus) []Entry {
@@ -210,9 +222,9 @@ func condsOnly(st []Entry) []metav1.Condition {
 
 var meta = metav1.ObjectMeta{Namespace: "ns", Name: "obj", ResourceVersion: "1", Generation: 7}
 
-func policyKind(variant string, newObj func() policies.Policy) *kindOps {
+func policyKind(variant, version string, newObj func() policies.Policy) *kindOps {
 	return &kindOps{
-		name: "NGFPolicy", variant: variant, mode: "foreignFirst",
+		name: "NGFPolicy", variant: variant, version: version, mode: "foreignFirst",
 		newObj: func() client.Object { return newObj() },
 		setStatus: func(o client.Object, st []Entry) {
 			o.(policies.Policy).SetPolicyStatus(v1alpha2.PolicyStatus{Ancestors: toAncestors(st)})
@@ -226,7 +238,7 @@ func policyKind(variant string, newObj func() policies.Policy) *kindOps {
 
 var allKinds = []*kindOps{
 	{
-		name: "HTTPRoute", variant: "HTTPRoute", mode: "ownFirst",
+		name: "HTTPRoute", variant: "HTTPRoute", version: "v1", mode: "ownFirst",
 		newObj:    func() client.Object { return &gatewayv1.HTTPRoute{ObjectMeta: meta} },
 		setStatus: func(o client.Object, st []Entry) { o.(*gatewayv1.HTTPRoute).Status.Parents = toParents(st) },
 		getStatus: func(o client.Object) []Entry { return fromParents(o.(*gatewayv1.HTTPRoute).Status.Parents) },
@@ -236,7 +248,7 @@ var allKinds = []*kindOps{
 		},
 	},
 	{
-		name: "GRPCRoute", variant: "GRPCRoute", mode: "ownFirst",
+		name: "GRPCRoute", variant: "GRPCRoute", version: "v1", mode: "ownFirst",
 		newObj:    func() client.Object { return &gatewayv1.GRPCRoute{ObjectMeta: meta} },
 		setStatus: func(o client.Object, st []Entry) { o.(*gatewayv1.GRPCRoute).Status.Parents = toParents(st) },
 		getStatus: func(o client.Object) []Entry { return fromParents(o.(*gatewayv1.GRPCRoute).Status.Parents) },
@@ -246,7 +258,7 @@ var allKinds = []*kindOps{
 		},
 	},
 	{
-		name: "TLSRoute", variant: "TLSRoute", mode: "ownFirst",
+		name: "TLSRoute", variant: "TLSRoute", version: "v1alpha2", mode: "ownFirst",
 		newObj:    func() client.Object { return &v1alpha2.TLSRoute{ObjectMeta: meta} },
 		setStatus: func(o client.Object, st []Entry) { o.(*v1alpha2.TLSRoute).Status.Parents = toParents(st) },
 		getStatus: func(o client.Object) []Entry { return fromParents(o.(*v1alpha2.TLSRoute).Status.Parents) },
@@ -255,11 +267,11 @@ var allKinds = []*kindOps{
 				v1alpha2.TLSRouteStatus{RouteStatus: gatewayv1.RouteStatus{Parents: toParents(st)}}, c)
 		},
 	},
-	policyKind("ClientSettingsPolicy", func() policies.Policy { return &ngfAPI.ClientSettingsPolicy{ObjectMeta: meta} }),
-	policyKind("ObservabilityPolicy", func() policies.Policy { return &ngfAPIv2.ObservabilityPolicy{ObjectMeta: meta} }),
-	policyKind("UpstreamSettingsPolicy", func() policies.Policy { return &ngfAPI.UpstreamSettingsPolicy{ObjectMeta: meta} }),
+	policyKind("ClientSettingsPolicy", "v1alpha1", func() policies.Policy { return &ngfAPI.ClientSettingsPolicy{ObjectMeta: meta} }),
+	policyKind("ObservabilityPolicy", "v1alpha2", func() policies.Policy { return &ngfAPIv2.ObservabilityPolicy{ObjectMeta: meta} }),
+	policyKind("UpstreamSettingsPolicy", "v1alpha1", func() policies.Policy { return &ngfAPI.UpstreamSettingsPolicy{ObjectMeta: meta} }),
 	{
-		name: "BackendTLSPolicy", variant: "BackendTLSPolicy", mode: "foreignFirst",
+		name: "BackendTLSPolicy", variant: "BackendTLSPolicy", version: "v1alpha3", mode: "foreignFirst",
 		newObj: func() client.Object { return &v1alpha3.BackendTLSPolicy{ObjectMeta: meta} },
 		setStatus: func(o client.Object, st []Entry) {
 			o.(*v1alpha3.BackendTLSPolicy).Status.Ancestors = toAncestors(st)
@@ -270,7 +282,7 @@ var allKinds = []*kindOps{
 		},
 	},
 	{
-		name: "SnippetsFilter", variant: "SnippetsFilter", mode: "foreignFirst",
+		name: "SnippetsFilter", variant: "SnippetsFilter", version: "v1alpha1", mode: "foreignFirst",
 		newObj: func() client.Object { return &ngfAPI.SnippetsFilter{ObjectMeta: meta} },
 		setStatus: func(o client.Object, st []Entry) {
 			o.(*ngfAPI.SnippetsFilter).Status.Controllers = toControllers(st)
@@ -281,7 +293,7 @@ var allKinds = []*kindOps{
 		},
 	},
 	{
-		name: "Gateway", variant: "Gateway", mode: "whole",
+		name: "Gateway", variant: "Gateway", version: "v1", mode: "whole",
 		newObj:    func() client.Object { return &gatewayv1.Gateway{ObjectMeta: meta} },
 		setStatus: func(o client.Object, st []Entry) { o.(*gatewayv1.Gateway).Status = toGatewayStatus(st) },
 		getStatus: func(o client.Object) []Entry { return fromGatewayStatus(o.(*gatewayv1.Gateway).Status) },
@@ -290,7 +302,7 @@ var allKinds = []*kindOps{
 		},
 	},
 	{
-		name: "GatewayClass", variant: "GatewayClass", mode: "whole",
+		name: "GatewayClass", variant: "GatewayClass", version: "v1", mode: "whole",
 		newObj: func() client.Object { return &gatewayv1.GatewayClass{ObjectMeta: meta} },
 		setStatus: func(o client.Object, st []Entry) {
 			o.(*gatewayv1.GatewayClass).Status.Conditions = condsOnly(st)
@@ -303,7 +315,7 @@ var allKinds = []*kindOps{
 		},
 	},
 	{
-		name: "NginxGateway", variant: "NginxGateway", mode: "whole",
+		name: "NginxGateway", variant: "NginxGateway", version: "v1alpha1", mode: "whole",
 		newObj: func() client.Object { return &ngfAPI.NginxGateway{ObjectMeta: meta} },
 		setStatus: func(o client.Object, st []Entry) {
 			o.(*ngfAPI.NginxGateway).Status.Conditions = condsOnly(st)
